@@ -70,13 +70,13 @@ func selftest(args []string) int {
 						cmd.Env = append(cmd.Env, "DSIM_NO_RSA=1")
 					}
 					if pt.Race {
-						cmd.Env = append(cmd.Env, "GORACE=halt_on_error=0 log_path="+filepath.Join(tmp, fmt.Sprintf("race-%d", i)))
+						cmd.Env = append(cmd.Env, "GORACE=halt_on_error=0 atexit_sleep_ms=0 log_path="+filepath.Join(tmp, fmt.Sprintf("race-%d", i)), "DSIM_ALGS=ed25519,secp256k1", "GOGC=off")
 					}
 					out, err := cmd.CombinedOutput()
 					hb, _ := os.ReadFile(hf)
 					mu.Lock()
 					defer mu.Unlock()
-					if err != nil {
+					if err != nil && !strings.Contains(string(out), "race detected during execution of test") {
 						results["ERROR: "+tail(string(out), 300)] = append(results["ERROR"], gmp)
 						return
 					}
